@@ -22,9 +22,15 @@ def gen(rng, tier="quick", **force):
         n_par=int(rng.choice([1, 1, 2])), dtype=str(rng.choice(["f8", "f8", "f4_vecs", "mixed"])), fd=bool(rng.random() < 0.3),
         seed=int(rng.integers(0, 2**31)),
     )
+    spec.update(force)
     # real non-symmetric H_0 with complex-conjugate eigenvalue pairs that are split between the explicit and
     # the implicit subspace (real dtype of H_0, complex eigenvectors)
     spec["real_pairs"] = bool((not spec["hermitian"]) and (not spec["complex"]) and rng.random() < 0.5)
+    # real H_0 and eigenvectors, first perturbation real, last perturbation complex (real hopping + imaginary spin-orbit term)
+    spec["mixed_terms"] = bool((not spec["complex"]) and spec["n_par"] >= 2 and rng.random() < 0.5)
+    # normal but non-Hermitian H_0 (unitary eigenbasis, complex eigenvalues): the explicit subspaces may then be
+    # given as plain orthonormal bases V instead of (R, L) pairs although hermitian=False
+    spec["normal"] = bool((not spec["hermitian"]) and spec["complex"] and rng.random() < 0.3)
     # eigenvectors of decoupled subsystems (sparse, disjoint supports) instead of dense random ones
     spec["structured"] = bool((not spec["real_pairs"]) and rng.random() < 0.4)
     spec.update(force)
@@ -119,6 +125,8 @@ def build(spec):
         R, L, E = Rfull[:, order], Lfull[:, order], Ep[order]
         H0 = H0c.real
         terms = [rng.normal(size=(N, N)) for _ in range(spec["n_par"])]
+        if spec.get("mixed_terms") and len(terms) >= 2:
+            terms[-1] = terms[-1] + 1j * rng.normal(size=(N, N))
         offs = np.concatenate([[0], np.cumsum(sizes)])
         expl = [(np.array(R[:, offs[i]:offs[i + 1]]), np.array(L[:, offs[i]:offs[i + 1]])) for i in range(len(sizes))]
         full = expl + [(np.array(R[:, k:]), np.array(L[:, k:]))]
@@ -133,7 +141,9 @@ def build(spec):
             A = rnd((N, N))
             terms.append((A + A.conj().T) / 2)
     else:
-        if spec.get("structured"):
+        if spec.get("normal"):
+            R = structured_basis(rng, N, cplx, True) if spec.get("structured") else np.linalg.qr(rnd((N, N)))[0]
+        elif spec.get("structured"):
             R = structured_basis(rng, N, cplx, False)
         else:
             Q = np.linalg.qr(rnd((N, N)))[0]
@@ -145,13 +155,22 @@ def build(spec):
     if not cplx:
         H0, R, L = H0.real, R.real, L.real
         terms = [t.real for t in terms]
+    if spec.get("mixed_terms") and not cplx and len(terms) >= 2:
+        A = rng.normal(size=(N, N)) + 1j * rng.normal(size=(N, N))
+        terms[-1] = (A + A.conj().T) / 2 if hermitian else A
     offs = np.concatenate([[0], np.cumsum(sizes)])
     if hermitian:
         expl = [np.array(R[:, offs[i]:offs[i + 1]]) for i in range(len(sizes))]
         full = expl + [np.array(R[:, k:])]
     else:
         expl = [(np.array(R[:, offs[i]:offs[i + 1]]), np.array(L[:, offs[i]:offs[i + 1]])) for i in range(len(sizes))]
-        full = expl + [(np.array(R[:, k:]), np.array(L[:, k:]))]
+        rest = (np.array(R[:, k:]), np.array(L[:, k:]))
+        if spec.get("normal"):
+            # L = R here: some (or all) subspaces as plain arrays
+            plain = [bool(rng.random() < 0.7) for _ in range(len(sizes) + 1)]
+            expl = [e[0] if pl else e for e, pl in zip(expl, plain)]
+            rest = rest[0] if plain[-1] else rest
+        full = expl + [rest]
     return dict(spec=spec, N=N, k=k, sizes=sizes, E=E, R=R, L=L, H0=H0, terms=terms, expl=expl, full=full, hermitian=hermitian)
 
 
